@@ -33,30 +33,35 @@ def _scenarios():
     # 1. fill, grow by doubling, free the LOWER region first then the upper one (merge into the predecessor), then a
     #    request that only the merged hole can serve  (seeded C12-g: a stale "largest free chunk" hint grows instead)
     out.append(("fill ; grow ; free low ; free high ; request served by the merged hole", {}, [("alloc", C, False), ("alloc", x, False), ("free", 0), ("free", 1), ("alloc", y, False), ("get_free",)],
-                [W(C=200, x=10, y=205, A=8), W(C=1000, x=64, y=1033, A=16)], "x < C < y <= C + x"))
+                [W(C=200, x=10, y=205, A=8), W(C=1024, x=64, y=1057, A=16)], "x < C < y <= C + x"))
     # 2. the same with the upper region freed first (merge with the successor)
     out.append(("fill ; grow ; free high ; free low ; request served by the merged hole", {}, [("alloc", C, False), ("alloc", x, False), ("free", 1), ("free", 0), ("alloc", y, False), ("get_free",)],
-                [W(C=200, x=10, y=205, A=8), W(C=1000, x=64, y=1033, A=16)], "x < C < y <= C + x"))
+                [W(C=200, x=10, y=205, A=8), W(C=1024, x=64, y=1057, A=16)], "x < C < y <= C + x"))
     # 3. three regions, the middle one freed and reused by a smaller request (lowest-addressed fit), then the rest of the
     #    hole by an exact-fit request; nothing grows
     out.append(("a ; b ; c ; free b ; smaller request reuses the hole ; exact fit of the rest", {}, [("alloc", x, False), ("alloc", y, False), ("alloc", z, False), ("free", 1), ("alloc", y - K(3), False), ("alloc", K(3), False), ("get_free",)],
-                [W(C=500, x=40, y=30, z=50, A=8), W(C=4096, x=100, y=77, z=300, A=16)], "x + y + z < C, y > 3"))
+                [W(C=512, x=40, y=30, z=50, A=8), W(C=4096, x=100, y=77, z=300, A=16)], "x + y + z < C, y > 3"))
     # 4. everything freed again in allocation order: one chunk [0, C); a request of the whole capacity fits without growth
     out.append(("a ; b ; c ; free a ; free b ; free c ; request of the whole capacity", {}, [("alloc", x, False), ("alloc", y, False), ("alloc", z, False), ("free", 0), ("free", 1), ("free", 2), ("get_free",), ("alloc", C, False)],
-                [W(C=500, x=40, y=30, z=50, A=8), W(C=4096, x=100, y=77, z=300, A=16)], "x + y + z < C"))
+                [W(C=512, x=40, y=30, z=50, A=8), W(C=4096, x=100, y=77, z=300, A=16)], "x + y + z < C"))
     # 5. ... and in the reverse order
     out.append(("a ; b ; c ; free c ; free b ; free a ; request of the whole capacity", {}, [("alloc", x, False), ("alloc", y, False), ("alloc", z, False), ("free", 2), ("free", 1), ("free", 0), ("get_free",), ("alloc", C, False)],
-                [W(C=500, x=40, y=30, z=50, A=8), W(C=4096, x=100, y=77, z=300, A=16)], "x + y + z < C"))
+                [W(C=512, x=40, y=30, z=50, A=8), W(C=4096, x=100, y=77, z=300, A=16)], "x + y + z < C"))
     # 6. explicit growth step: two growths by G, the second request served from the space the first growth left
     out.append(("grow_step: fill ; request (one step) ; request that fits what the step left ; request (another step)", {"grow_step": G}, [("alloc", C, False), ("alloc", x, False), ("alloc", y, False), ("alloc", z, False), ("get_free",)],
-                [W(C=100, G=64, x=10, y=20, z=40, A=8), W(C=1000, G=512, x=100, y=200, z=300, A=16)], "x + y <= G < x + y + z <= 2 G, G <= C"))
+                [W(C=104, G=64, x=10, y=20, z=40, A=8), W(C=1024, G=512, x=100, y=200, z=300, A=16)], "x + y <= G < x + y + z <= 2 G, G <= C"))
     # 7. aligned requests: the padding in front of an aligned region is not handed out; freeing and re-requesting the
     #    same size returns the same place
     out.append(("aligned: odd-sized a ; aligned b ; free b ; b again (same place) ; free a ; a again (same place)", {}, [("alloc", x, True), ("alloc", y, True), ("free", 1), ("alloc", y, True), ("free", 0), ("alloc", x, True), ("get_free",)],
                 [W(C=512, x=13, y=40, A=8), W(C=4096, x=37, y=100, A=16)], "x, y small against C; x not a multiple of A"))
     # 8. growth after the buffer was used: the last chunk ends at the capacity and is extended, a hole in the middle stays
     out.append(("a ; b ; free a ; request larger than everything (doubling) ; small request goes to the hole", {}, [("alloc", x, False), ("alloc", y, False), ("free", 0), ("alloc", z, False), ("alloc", x - K(1), False), ("get_free",)],
-                [W(C=300, x=50, y=60, z=400, A=8), W(C=1000, x=120, y=130, z=1500, A=16)], "x + y < C < z <= 2C - x - y ... (z + 0 > C: grows by z)"))
+                [W(C=304, x=50, y=60, z=400, A=8), W(C=1024, x=120, y=130, z=1500, A=16)], "x + y < C < z <= 2C - x - y ... (z + 0 > C: grows by z)"))
+    # 9. a small UNALIGNED live region (shorter than the alignment) between two regions that are freed: it stays live --
+    #    the free chunks on both sides do not merge across it, and a request of its neighbours' joint size does not get
+    #    its bytes  (seeded C04-e merged chunks that are closer than the alignment)
+    out.append(("unaligned a ; tiny b (shorter than the alignment) ; c ; free a ; free c ; request a+b+c must not be served over b", {}, [("alloc", x, False), ("alloc", y, False), ("alloc", z, False), ("free", 0), ("free", 2), ("get_free",), ("alloc", x + y + z, False)],
+                [W(C=512, x=13, y=3, z=24, A=8), W(C=4096, x=45, y=3, z=64, A=16)], "y < A, x + y a multiple of A, x not; 2 (x + y + z) < C"))
     return out
 
 
@@ -68,7 +73,24 @@ def ah(cx):
     m.func("context::XBuffer.grow")
     m.func("context::XBuffer.__init__")
     n_steps = 0
-    for name, ctor_kw, steps, wits, cond in _scenarios():
+    undecided = []
+    for sc_ in _scenarios():
+        try:
+            n_steps += _one(cx, m, f_alloc, *sc_)
+        except AnalysisError as e:
+            # this scenario's side conditions do not fix a quantity the code branches on: not decided HERE; the other
+            # scenarios still are.  Without any positive report the rule as a whole stays undecided (exit 2, never a pass)
+            undecided.append(str(e))
+    if undecided and not any(i.verdict == "violation" for i in cx.insts):
+        raise AnalysisError(f"{len(undecided)} allocator histories are not decided: {undecided[0]}")
+    for u in undecided:
+        cx.note(f_alloc, detail=f"history not decided: {u[:200]}")
+    cx.need(n_steps >= 45 or undecided, f"only {n_steps} history steps evaluated")
+
+
+def _one(cx, m, f_alloc, name, ctor_kw, steps, wits, cond):
+    n_steps = 0
+    if True:
         I = Interp(m)
         reg = {}
         ws = [_Witness(dict(w), w["A"]) for w in wits]
@@ -181,7 +203,7 @@ def ah(cx):
         except AnalysisError as e:
             if "step limit" in str(e):
                 cx.bad(f_alloc, construct=f"history `{name}`", detail="the evaluation does not terminate (a request is never served)", sub="history")
-                continue
+                return n_steps
             raise
         if len(res) != 1:
             raise AnalysisError(f"[AH] `{name}`: evaluation forks on {[r['conds'] for r in res][:2]}")
@@ -219,7 +241,7 @@ def ah(cx):
             cx.bad(f_alloc, construct=f"history `{name}` ({cond})", detail=f"after `{done}`: {msg}", sub="history")
         else:
             cx.ok(f_alloc, construct=f"history `{name}` ({cond}): {len(steps)} steps", detail="offsets, free list, capacity and get_free() equal the first-fit / coalescing reference after every step", sub="history")
-    cx.need(n_steps >= 40, f"only {n_steps} history steps evaluated")
+    return n_steps
 
 
 def _state(I, me):
